@@ -479,16 +479,17 @@ fn settle(world: &mut World, sink: &mut Sink, frozen: Option<&str>) -> Result<()
 /// One request of the race alphabet on `key`.
 fn race_request(rng: &mut Rng, key: u64, value: u64, max: i64, reads: bool) -> Req {
     let ttl = rng.pick(&[1_000_000_000u128, 1_000_000_000, 2_000_000_000, 3_000_000_000, 1]);
-    let weight = rng.pick(&[1i64, 2, 3, 3, max / 2 + 1, max]);
+    let weight = if rng.chance(4) { rng.pick(&[0i64, -1]) } else { rng.pick(&[1i64, 2, 3, 3, max / 2 + 1, max]) };   // now and then a weight the documented assertion refuses
+    let positive = weight.max(1);
     match rng.below(if reads { 16 } else { 12 }) {
         0 | 1 => Req::PutW(key, value, weight, None),
         2 | 3 => Req::PutW(key, value, weight, Some(ttl)),
         4 | 5 => Req::Delete(key),
         6 => Req::Upsert(key, Some(value), None, None, false),
-        7 => Req::Upsert(key, Some(value), Some(weight), None, false),
+        7 => Req::Upsert(key, Some(value), Some(positive), None, false),
         8 | 9 => Req::Upsert(key, Some(value).filter(|_| rng.chance(30)), None, Some(ttl), false),
         10 => Req::Upsert(key, Some(value).filter(|_| rng.chance(30)), None, None, true),
-        11 => Req::Upsert(key, None, Some(weight), Some(ttl).filter(|_| rng.chance(50)), false),
+        11 => Req::Upsert(key, None, Some(positive), Some(ttl).filter(|_| rng.chance(50)), false),
         12 => Req::Get(key),
         13 => Req::GetRef(key),
         14 => { let variant = rng.below(3) as u8; Req::MGet(if variant == 0 { vec![key, 1 - key.min(1)] } else { vec![key, 1 - key.min(1), key] }, variant) }   // the map-returning variant gets distinct keys
@@ -517,6 +518,29 @@ pub fn run_race(seed: u64, out: &str, args: &[String]) -> bool {
         let mut value = 100u64;
         let hot = 0u64;
         let result: Result<(), String> = (|| {
+            // template "read window" (every seventh case): a key with a deadline, a READ caught in the middle, the clock carried
+            // past the deadline, the read released — every value it then returns must be alive at the moment of its own lookup
+            if rng.chance(15) {
+                let ttl = rng.pick(&[1_000_000_000u128, 2_000_000_000]);
+                perform(&mut world, &Choice::Issue(1, Req::PutW(hot, 101, 2, Some(ttl))), &mut sink)?;
+                settle(&mut world, &mut sink, None)?;
+                if rng.chance(50) { perform(&mut world, &Choice::Issue(1, Req::PutW(1, 102, 2, Some(ttl))), &mut sink)?; settle(&mut world, &mut sink, None)?; }
+                let req = match rng.below(4) { 0 => Req::Get(hot), 1 => Req::GetRef(hot), _ => Req::MGet(if rng.chance(50) { vec![1, hot, hot] } else { vec![hot, 1, hot] }, 1 + rng.below(2) as u8) };
+                perform(&mut world, &Choice::Issue(0, req), &mut sink)?;
+                for _ in 0..(1 + rng.below(4)) {
+                    if !world.enabled("c0") { break; }
+                    perform(&mut world, &Choice::Role("c0".to_string()), &mut sink)?;
+                    if World::at("c0") == "client.idle" { break; }
+                }
+                perform(&mut world, &Choice::Advance(ttl as u64 + rng.pick(&[0u64, 1, 1, 1_000_000_000])), &mut sink)?;
+                if rng.chance(30) && world.enabled("sweeper") { perform(&mut world, &Choice::Role("sweeper".to_string()), &mut sink)?; }
+                settle(&mut world, &mut sink, None)?;
+                for req in [Req::Get(hot), Req::MGet(vec![hot, 1], 1), Req::Weight] {
+                    perform(&mut world, &Choice::Issue(1, req), &mut sink)?;
+                    settle(&mut world, &mut sink, None)?;
+                }
+                return Ok(());
+            }
             // 1. set-up: complete calls on the hot key (and sometimes a neighbour), then perhaps the clock past a deadline
             for _ in 0..rng.below(4) {
                 value += 1;
@@ -527,7 +551,7 @@ pub fn run_race(seed: u64, out: &str, args: &[String]) -> bool {
             }
             if rng.chance(60) { perform(&mut world, &Choice::Advance(rng.pick(&[1u64, 1_000_000_000, 1_000_000_001, 2_000_000_001, 3_000_000_001])), &mut sink)?; }
             // 2. the victim, advanced into its programme and frozen there
-            let victim = rng.pick(&["sweeper", "sweeper", "worker", "worker", "c0"]).to_string();
+            let victim = rng.pick(&["sweeper", "sweeper", "sweeper", "worker", "worker", "worker", "c0", "c0", "consumer"]).to_string();
             let depth = 1 + rng.below(8);
             match victim.as_str() {
                 "sweeper" => {
@@ -535,6 +559,14 @@ pub fn run_race(seed: u64, out: &str, args: &[String]) -> bool {
                         if !world.enabled("sweeper") { break; }
                         perform(&mut world, &Choice::Role("sweeper".to_string()), &mut sink)?;
                         if World::at("sweeper") == "sweep.begin" { break; }
+                    }
+                }
+                "consumer" => {
+                    // the consumer stands still while reads fill the buffers and the hand-over queue
+                    for _ in 0..(2 + rng.below(8)) {
+                        if world.pending_job[0] || World::at("c0") != "client.idle" { break; }
+                        perform(&mut world, &Choice::Issue(0, Req::Get(if rng.chance(80) { hot } else { 1 })), &mut sink)?;
+                        settle(&mut world, &mut sink, Some("consumer"))?;
                     }
                 }
                 "worker" => {
@@ -550,7 +582,7 @@ pub fn run_race(seed: u64, out: &str, args: &[String]) -> bool {
                 }
                 _ => {
                     value += 1;
-                    let req = race_request(&mut rng, hot, value, max, true);
+                    let req = if rng.chance(25) { Req::MGet(vec![hot, 1, hot], 1 + rng.below(2) as u8) } else { race_request(&mut rng, hot, value, max, true) };
                     perform(&mut world, &Choice::Issue(0, req), &mut sink)?;
                     for _ in 0..depth {
                         if !world.enabled("c0") { break; }
@@ -559,14 +591,24 @@ pub fn run_race(seed: u64, out: &str, args: &[String]) -> bool {
                     }
                 }
             }
+            // a call caught in the middle sees the clock move on (a read holding an earlier reading of the clock would serve
+            // a value whose deadline passes meanwhile)
+            if victim == "c0" && rng.chance(50) { perform(&mut world, &Choice::Advance(rng.pick(&[1_000_000_000u64, 1_000_000_001, 2_000_000_001, 3_000_000_001])), &mut sink)?; }
             // 3. complete calls of the other clients while the victim stands still
             for round in 0..(1 + rng.below(3)) {
                 let client = 1 + (round as usize % 2);
                 if world.pending_job[client] || World::at(&format!("c{}", client)) != "client.idle" { continue; }
                 value += 1;
                 let key = if rng.chance(85) { hot } else { 1 };
-                let req = race_request(&mut rng, key, value, max, true);
+                // now and then `shutdown()` is one of the calls that go by (all of it, or stopped a few actions in)
+                let req = if rng.chance(if victim == "consumer" { 40 } else { 6 }) { Req::Shutdown } else { race_request(&mut rng, key, value, max, true) };
+                let partial = matches!(req, Req::Shutdown) && rng.chance(50);
                 perform(&mut world, &Choice::Issue(client, req), &mut sink)?;
+                if partial {
+                    let role = format!("c{}", client);
+                    for _ in 0..(1 + rng.below(11)) { if !world.enabled(&role) { break; } perform(&mut world, &Choice::Role(role.clone()), &mut sink)?; }
+                    if victim == "consumer" && world.enabled("consumer") { perform(&mut world, &Choice::Role("consumer".to_string()), &mut sink)?; }
+                }
                 settle(&mut world, &mut sink, Some(victim.as_str()))?;
                 if rng.chance(15) { perform(&mut world, &Choice::Advance(rng.pick(&[1u64, 1_000_000_000, 2_000_000_001])), &mut sink)?; }
                 if victim != "sweeper" && rng.chance(15) && world.enabled("sweeper") {
